@@ -3,8 +3,8 @@
 //@ assume: positions < 2^32 - 1 (`as u32` narrowing) and every partial shift sum fits in u64 -- stated as preconditions (`fits`), true for any MMR with < 2^32 nodes since pruned subtrees are disjoint
 //@ assume: decided here: the prune-list representation invariant (caches = prefix sums of per-root contributions in position order, one entry per root) and what the shift lookups return; file rewriting during compaction, reopen and the chain-level statement are not decided (DESIGN 6 C08)
 //@ assume: 64-bit target
-//@ assumed_items: 10
-//@ fns: PruneList::get_shift, PruneList::get_leaf_shift, PruneList::get_total_shift, PruneList::get_total_leaf_shift, PruneList::calculate_next_shift, PruneList::calculate_next_leaf_shift, PruneList::append_single, PruneList::cleanup_subtree, PruneList::is_pruned_root
+//@ assumed_items: 12
+//@ fns: PruneList::get_shift, PruneList::get_leaf_shift, PruneList::get_total_shift, PruneList::get_total_leaf_shift, PruneList::calculate_next_shift, PruneList::calculate_next_leaf_shift, PruneList::append_single, PruneList::cleanup_subtree, PruneList::is_pruned_root, PruneList::is_pruned
 //@ import: use vstd::arithmetic::power2::*;
 //@ import: use vstd::bits::*;
 global size_of usize == 8;
@@ -44,6 +44,11 @@ impl Bitmap {
                 self.seq().len() > 0 ==> r == Some(self.seq().last() as u32),
     { unimplemented!() }
     #[verifier::external_body]
+    pub fn select(&self, idx: u32) -> (r: Option<u32>)
+        ensures idx < self.seq().len() ==> r == Some(self.seq()[idx as int] as u32),
+                idx >= self.seq().len() ==> r.is_none()
+    { unimplemented!() }
+    #[verifier::external_body]
     pub fn add(&mut self, x: u32)
         requires old(self).seq().len() == 0 || old(self).seq().last() < x,
         ensures final(self).seq() == old(self).seq().push(x as int)
@@ -73,6 +78,16 @@ pub fn bintree_leftmost(pos0: u64) -> (r: u64)
 fn runtime_assert(b: bool)
     ensures b
 { assert!(b); }
+
+pub struct URange { pub start: u64, pub end: u64 }
+impl URange {
+    pub fn contains(&self, x: &u64) -> (r: bool) ensures r == (self.start <= *x && *x < self.end) { self.start <= *x && *x < self.end }
+}
+/// pmmr::bintree_range(root) = [leftmost(root), root + 1): proved in C07/pmmr_arith
+#[verifier::external_body]
+pub fn bintree_range(pos0: u64) -> (r: URange)
+    ensures r.start as int == leftmost(pos0 as int), r.end == pos0 + 1, r.start <= pos0
+{ unimplemented!() }
 
 fn min(a: usize, b: usize) -> (r: usize)
     ensures r == if a <= b { a } else { b }
@@ -294,6 +309,16 @@ impl PruneList {
 //@+        assert(increasing(t)) by { assert forall|i: int, j: int| 0 <= i < j < t.len() implies t[i] < t[j] by { assert(s0[i] < s0[j]); } }
 //@+        assert forall|i: int| 0 <= i <= k implies shift_sum(t, i) == shift_sum(s0, i) && leaf_sum(t, i) == leaf_sum(s0, i) by { lemma_sum_prefix(t, s0, i); }
 //@+    }
+//@ end
+
+//@ extract store/src/prune_list.rs :: impl PruneList::is_pruned
+//@   rewrite `pmmr::bintree_range(` => `bintree_range(`
+//@   requires:
+//@+    self.bitmap.wf(), pos0 < 0xffff_fffeu64, self.bitmap.seq().len() < 0x1_0000_0000,
+//@   ensures:
+//@+    r == (self.bitmap.seq().contains(pos0 + 1)
+//@+          || ({ let k = rank_spec(self.bitmap.seq(), pos0 + 1) as int;
+//@+                k < self.bitmap.seq().len() && leftmost(self.bitmap.seq()[k] - 1) <= pos0 && pos0 <= self.bitmap.seq()[k] - 1 })),
 //@ end
 }
 //@ canary get_shift: r == 0
